@@ -385,6 +385,7 @@ def suite_output(exe, tier, seed):
 
 
 VAL_TEMPLATE = """pragma circom 2.0.0;
+function n2(x) { return x * x + 2; }
 template T(n) {
   signal input in;
   signal output out;
@@ -419,6 +420,26 @@ def value_cases():
                 else:
                     claim = "true" if (a, b) == ("c1", "c1") else "false" if (a, b) == ("c2", "c2") else None
                 cases.append((f"{carrier}:{a}/{b}", body, claim))
+    # arrays (versioned as a whole), the ternary operator and calls: the comparison is always with 1
+    tail = "\n  if (v == 1) { r = 1; } else { r = 2; }\n  out <== in;"
+    extra = [
+        ("array:distinct-elements", "  var a[2];\n  a[0] = 1;\n  a[1] = 2;\n  var v = a[1];" + tail, "false"),
+        ("array:same-elements", "  var a[2];\n  a[0] = 1;\n  a[1] = 1;\n  var v = a[n];" + tail, "true"),
+        ("array:element-overwritten-in-branch", "  var a[2];\n  a[0] = 1;\n  a[1] = 1;\n  if (n == 0) { a[0] = 2; }\n  var v = a[0];" + tail, None),
+        ("array:element-overwritten-in-loop", "  var a[2];\n  a[0] = 1;\n  a[1] = 1;\n  for (var i = 0; i < n; i++) { a[i] = 2; }\n  var v = a[0];" + tail, None),
+        ("array:other-element-overwritten", "  var a[2];\n  a[0] = 1;\n  a[1] = 1;\n  a[1] = 2;\n  var v = a[0];" + tail, "true"),
+        ("array:inline-then-overwritten", "  var a[2] = [1, 1];\n  a[n] = 2;\n  var v = a[0];" + tail, None),
+        ("array:inline-distinct", "  var a[2] = [1, 2];\n  var v = a[n];" + tail, None),
+        ("ternary:unknown-condition-distinct-cases", "  var v = n == 0 ? 1 : 2;" + tail, None),
+        ("ternary:unknown-condition-same-cases", "  var v = n == 0 ? 1 : 1;" + tail, "true"),
+        ("ternary:unknown-condition-one-unknown-case", "  var v = n == 0 ? 1 : in;" + tail, None),
+        ("ternary:constant-condition", "  var v = 2 == 2 ? 1 : 2;" + tail, "true"),
+        ("ternary:constant-condition-other-case-unknown", "  var v = 2 == 3 ? in : 1;" + tail, "true"),
+        ("ternary:nested", "  var v = n == 0 ? (n == 1 ? 1 : 2) : 1;" + tail, None),
+        ("call:constant-arguments", "  var v = n2(0);" + tail, None),
+        ("call:unknown-argument", "  var v = n2(n);" + tail, None),
+    ]
+    cases += extra
     return cases
 
 
@@ -458,7 +479,7 @@ def suite_values(exe, tier, seed):
         shutil.rmtree(d, ignore_errors=True)
     return {"unit": "e2e-values", "evaluations": evals, "distinct_nontrivial": nontrivial, "exhaustive": True,
             "rule": "the real CLI on a template in which a carrier (signal or variable) is assigned a constant or an unknown value on each of two paths and then compared with a constant: the tool must not abort, and may report `This condition is always true/false` only when every path assigns the matching constant",
-            "bound": "4 carriers (signal in both branches, variable in both branches, signal in one branch, variable updated in a loop) x {1, 2, unknown}^2 assignments",
+            "bound": "4 carriers (signal in both branches, variable in both branches, signal in one branch, variable updated in a loop) x {1, 2, unknown}^2 assignments; 15 shapes with arrays (distinct / equal elements, elements overwritten in a branch, in a loop, at an unknown index), ternaries (unknown or constant condition, equal / distinct / unknown cases, nested) and calls",
             "samples": samples, "violations": viol}
 
 
